@@ -11,6 +11,7 @@ import hashlib
 from hypothesis import strategies as st
 
 from vf.core import hyp, pool
+from vf.core.lib import library_exceptions_are_findings as _guard
 from vf.core.stats import Finding, Stats
 from vf.props import c07
 from vf.ref import ssh as ref
@@ -211,6 +212,7 @@ def _renamed_principal(model, name):
     return []
 
 
+@_guard
 def check_case(case, notes=None):
     if case['kind'] == 'kexinit':
         return _check_kexinit(case, notes)
